@@ -66,6 +66,12 @@ def rnd_fid(rng, n):
                 "%d,%s%s" % (v, k, c[:-1] + "g"), "%x,%s%s" % (v, k, c), "%d,0x%s%s" % (v, k, c), "," + k + c, txt.replace(",", "٫")]
         for m in rng.sample(muts, 6):
             out.append({"ev": "fidstr", "s": cp(m)})
+        kc = k + c
+        paths = [kc, kc + "_1", kc + "_%d" % rng.randrange(1, 10000), kc.upper() + "_7", kc + "_", kc + "_0", kc + "_007", kc + "_1_2",
+                 kc + "_x", kc + "_-1", kc + "_18446744073709551615", kc + "_18446744073709551616", "_" + kc, kc[:-1] + "_1",
+                 "0" + kc + "_3", kc + "_ 1", kc + "_1 ", kc + ".jpg", kc + "_99999"]
+        for m in rng.sample(paths, 4):
+            out.append({"ev": "path", "s": cp(m)})
     return out
 
 
@@ -98,7 +104,10 @@ def rnd_sb(rng, n, big):
         if big and i < len(big):
             nid = big[i]
         present = rng.random() < 0.8
-        ids = [rng.choice([1, 127, 128, 300, 16383, 16384, 2147483647]) if rng.random() < 0.2 else rng.randrange(1, 128)
+        if big and i < len(big):
+            present = True
+        wide = 0.2 if nid <= 1000 else 0.0      # the whole extra must stay below 65534 bytes (SuperBlock.Bytes exits otherwise)
+        ids = [rng.choice([1, 127, 128, 300, 16383, 16384, 2147483647]) if rng.random() < wide else rng.randrange(1, 128)
                for _ in range(nid)] if present else []
         out.append({"ev": "sbval", "ver": rng.choice([1, 2, 3, 3]), "p": [rng.randrange(3) for _ in range(3)],
                     "ttl": [rng.randrange(256), rng.randrange(256)] if rng.random() < 0.3 else [rng.randrange(256), rng.randrange(7)],
@@ -145,23 +154,25 @@ def run(ctx):
     rng = random.Random(ctx.seed)
     # 1+2. the codec definitions are model-checked (laws over every element of the enumerated domains)
     #      and the same run emits every element as an operation for the real code
-    inst = ctx.instance("MC_Codecs", "Codecs", "Codecs_mc.cfg", {"OffsetSize": 4, "Level": level})
-    ops = [flat(h[0]) for h in ctx.generate(inst, workers=4, timeout=1200)]
-    ops.sort(key=lambda o: json.dumps(o, sort_keys=True))   # TLC emits in worker order
-    if len(ops) < 5000:
-        raise ctx_infra("generator produced only %d operations" % len(ops))
-    ctx.notes["tlc_enumerated_operations"] = len(ops)
-    if ctx.thorough:   # every (count, unit byte) pair, not only the units the system writes
-        ops += [{"ev": "ttlval", "c": c, "u": u} for c in range(256) for u in range(7, 256, 1 if c in (0, 1, 255) else 31)]
-    k = 8 if ctx.thorough else 1
-    ops += rnd_ttl_strings(rng, 500 * k)
-    ops += rnd_fid(rng, 150 * k)
-    ops += rnd_idx(rng, 200 * k, 4)
-    ops += walks(rng, [0, 1, 2, 1023, 1024, 1025, 2047, 2048, 2049, rng.randrange(3, 3000)] + ([4096, 5000] if ctx.thorough else []))
-    ops += rnd_sb(rng, 60 * k, [30000, 60000] if ctx.thorough else [5000])
-    ops += [{"ev": "rpstr", "s": cp(s)} for s in ["000", "222", "0012", "2222", "22222222", "", "0", "01", "003", "300", "0 0",
-                                                    "00١", "０００", "-00", "+00", "1e0", "00.", "0000000000"]]
-    rng.shuffle(ops)
+    ops = []
+    if not ctx.replay:
+        inst = ctx.instance("MC_Codecs", "Codecs", "Codecs_mc.cfg", {"OffsetSize": 4, "Level": level})
+        ops = [flat(h[0]) for h in ctx.generate(inst, workers=4, timeout=1200)]
+        ops.sort(key=lambda o: json.dumps(o, sort_keys=True))   # TLC emits in worker order
+        if len(ops) < 5000:
+            raise ctx_infra("generator produced only %d operations" % len(ops))
+        ctx.notes["tlc_enumerated_operations"] = len(ops)
+        if ctx.thorough:   # every (count, unit byte) pair, not only the units the system writes
+            ops += [{"ev": "ttlval", "c": c, "u": u} for c in range(256) for u in range(7, 256, 1 if c in (0, 1, 255) else 31)]
+        k = 8 if ctx.thorough else 1
+        ops += rnd_ttl_strings(rng, 500 * k)
+        ops += rnd_fid(rng, 150 * k)
+        ops += rnd_idx(rng, 200 * k, 4)
+        ops += walks(rng, [0, 1, 2, 1023, 1024, 1025, 2047, 2048, 2049, rng.randrange(3, 3000)] + ([4096, 5000] if ctx.thorough else []))
+        ops += rnd_sb(rng, 60 * k, [30000, 65500] if ctx.thorough else [5000])
+        ops += [{"ev": "rpstr", "s": cp(s)} for s in ["000", "222", "0012", "2222", "22222222", "", "0", "01", "003", "300", "0 0",
+                                                        "00١", "０００", "-00", "+00", "1e0", "00.", "0000000000"]]
+        rng.shuffle(ops)
     script = os.path.join(ctx.out, "script.ndjson")
     if ctx.replay:
         script = ctx.replay
